@@ -478,7 +478,10 @@ class SeqMixin:
                 return self.iterate(fl)
             raise SymbolicIteration(v)
         if isinstance(v, GenList):
-            return self.iterate(v.gen)
+            try:
+                return self.iterate(v.gen)
+            except SymbolicIteration:
+                raise SymbolicIteration(v)
         if isinstance(v, SSet):
             self.note_effect('set_order', 'iteration over a set')
             return self.iterate(v.gen)
@@ -619,6 +622,7 @@ class SeqMixin:
 
     def make_set(self, items):
         out = []
+        exact = True
         for it in items:
             dup = False
             for o in out:
@@ -627,10 +631,12 @@ class SeqMixin:
                     dup = True
                     break
                 if e is not False:
-                    raise Unsupported('set of symbolic elements')
+                    exact = False  # possibly duplicated symbolic element: membership view only
             if not dup:
                 out.append(it)
-        return CSet(out)
+        r = CSet(out)
+        r.exact = exact
+        return r
 
     # ------------------------------------------------------------------ F-views
     def fview(self, gl):
@@ -675,6 +681,8 @@ class SeqMixin:
         if isinstance(v, (list, tuple, dict, str)):
             return len(v)
         if isinstance(v, CSet):
+            if not getattr(v, 'exact', True):
+                raise Unsupported('len of a set with symbolic elements')
             return len(v.items)
         if isinstance(v, SList):
             return v.n
